@@ -120,6 +120,17 @@ def framesOk : List Frame → List FrameOut → Bool
   | f :: fs, o :: os => o.err == .nil && o.f == some (inFrameOf f) && framesOk fs os
   | _, _ => false
 
+/-- RFC 6455 5.4 reassembly of a frame sequence (as the frame API delivers it): control frames are skipped, a data frame
+starts a message unless one is in progress (`cur` = its type and the payload so far), FIN ends it. -/
+def assemble : List InFrame → Option (Nat × Bytes) → List (Nat × Bytes)
+  | [], _ => []
+  | f :: r, cur =>
+    if Sonic.Spec.WsStream.controlOp f.op then assemble r cur
+    else
+      let ty := match cur with | some c => c.1 | none => f.op
+      let data := (match cur with | some c => c.2 | none => []) ++ f.payload
+      if f.fin then (ty, data) :: assemble r none else assemble r (some (ty, data))
+
 /-! ## Monitor -/
 
 inductive Api where
